@@ -74,6 +74,7 @@ class P(Prop):
                           "rect_rated": rated * rng.choice([1, 1, Fraction(5, 4), Fraction(3, 4), Fraction(3, 2)])})   # rectifier rated unlike the generator
                 if c["rect"]:
                     c["ps"][0] = Fraction(rng.randint(1, 10), 10) * rated       # a load at which the combined curve is tabulated
+                c["stored_power_history"] = rng.random() < 0.4
             elif st == "geared":
                 c.update({"bsfc": gen_bsfc(rng), "gear": gen_curve(rng, lo=56)})
             elif st == "fuelcell":
@@ -147,7 +148,15 @@ class P(Prop):
                         rect = ElectricComponent(type_=TypeComponent.RECTIFIER, name="r", rated_power=float(case.get("rect_rated", case["rated"])),
                                                  eff_curve=npc(case["rect"]), switchboard_id=1)
                     gs = Genset("gs", eng, gen, rect)
-                    rp = gs.get_fuel_cons_load_bsfc_from_power_out_generator_kw(power=arr)
+                    if case.get("stored_power_history"):
+                        # the run point read from the STORED delivered power, after an earlier evaluation with another series of
+                        # the same length (a reporting step that follows a calculation on a reused genset)
+                        gs.power_output = np.flip(np.atleast_1d(arr)) * 0.5 + 1.0
+                        gs.get_fuel_cons_load_bsfc_from_power_out_generator_kw()
+                        gs.power_output = np.atleast_1d(arr).copy()
+                        rp = gs.get_fuel_cons_load_bsfc_from_power_out_generator_kw()
+                    else:
+                        rp = gs.get_fuel_cons_load_bsfc_from_power_out_generator_kw(power=arr)
                     return {"eng_power": lst(gs.aux_engine.power_output), "fuel": lst(rp.engine.fuel_flow_rate_kg_per_s.fuels[0].mass_or_mass_fraction),
                             "load": lst(rp.engine.load_ratio), "bsfc": lst(rp.engine.bsfc_g_per_kWh),
                             "gen_points": [[float(a), float(b)] for a, b in gs.generator._efficiency_points]}
